@@ -15,7 +15,7 @@ def c18_desc(rng, n):
     """Structs named S0.. with whole-byte unsigned fields declared in id order (so that the static and the run-time payload
     codecs coincide, C13), at most 8 bytes, each bound to CAN: ids 0..2047, bus names of 1-4 characters or none."""
     desc = {"enums": [], "structs": [], "impls": []}
-    used = set()
+    used = {}
     for i in range(n):
         fields, total = [], 0
         for j in range(rng.randint(1, 4)):
@@ -26,8 +26,16 @@ def c18_desc(rng, n):
         desc["structs"].append({"name": f"S{i}", "fields": fields})
         r = rng.random()
         bus = rng.choice(["can1", "can2", "bus0"]) if r < 0.6 else (rng.choice(["a", "ab", "abc"]) if r < 0.85 else None)
-        fid = rng.randrange(2048) if rng.random() < 0.8 or not used else rng.choice(sorted(used))
-        used.add(fid)
+        if used and (rng.random() < 0.35 or i == n - 1 and len(used) == n - 1):
+            # an id shared with an earlier binding: mostly on another 4-character bus (legal: dispatch is by (id, bus)), now and then on the same
+            fid = rng.choice(sorted(used))
+            taken = used[fid]
+            free = [b for b in ["can1", "can2", "bus0", "zzzz"] if b not in taken]
+            if free and rng.random() < 0.8:
+                bus = rng.choice(free)
+        else:
+            fid = rng.randrange(2048)
+        used.setdefault(fid, set()).add(bus)
         fs = [("id", fid)] + ([("bus", bus)] if bus is not None else [])
         desc["impls"].append({"protocol": "can", "type": f"S{i}", "name": f"S{i}", "fields": fs, "signals": []})
     return desc
@@ -151,8 +159,8 @@ def run(chk):
                             fails.append({"kind": "can-wrapper", "schema": text, "binding": im.name, "value": v, "problems": problems,
                                           "static_encode": se, "dynamic_encode": de})
                     # a frame that matches no binding
-                    sid = chk.rng.randrange(2048)
-                    fbus = chk.rng.choice(["can1", "can2", "zzzz", "ab"]).encode().ljust(4, b"\0").hex()
+                    sid = chk.rng.randrange(2048) if chk.rng.random() < 0.5 else chk.rng.choice(cans).fields["id"]
+                    fbus = chk.rng.choice(["can1", "can2", "bus0", "zzzz", "ab", "yyyy"]).encode().ljust(4, b"\0").hex()
                     matches = [j for j in cans if j.fields["id"] == sid and (j.fields.get("bus") or "").encode().ljust(4, b"\0").hex() == fbus]
                     data = "00" * 8
                     sd = drv.ask(f"SD {fbus} {sid} 8 {data}")
